@@ -298,6 +298,9 @@ class Machine:
                 # are taken one at a time as the window runs short, items before a failing byte stay delivered, the
                 # unused bits of the last byte are dropped when the instruction ends
                 n = int(nb.group(1))
+                if n == 64 and target != "stack" and self.outputs[target][0].startswith("float"):
+                    # (whether a 64-bit field is an unsigned number or a machine cell is not defined; it only shows here)
+                    raise Unsupported("64-bit field written to a floating-point output")
                 window, have = 0, 0
                 for _ in range(count):
                     while have < n:
@@ -480,7 +483,7 @@ def gen_program(rng):
         # one long run of bit fields wider than a byte (the bit window has to be refilled and drained many times)
         n = rng.randint(12, 48)
         data = bytes(rng.randrange(256) for _ in range(n))
-        width = rng.choice([9, 10, 11, 12, 13, 15, 16, 17, 20, 23, 24, 27, 30, 31])
+        width = rng.choice([9, 10, 11, 12, 13, 15, 16, 17, 20, 23, 24, 27, 30, 31, 32, 33, 39, 47, 56, 57, 64])
         count = max(0, (n * 8) // width - rng.choice([0, 0, 1, 3]))
         big = "!" if rng.random() < 0.3 else ""
         if rng.random() < 0.6:
@@ -542,9 +545,13 @@ def gen_program(rng):
                 rep = rng.random() < 0.3
                 tgt = rng.choice(["stack"] + outs)
                 pre = [str(rng.randint(0, 3))] if rep else []
+                if rep and t in READ_TYPES and rng.random() < 0.05:
+                    # a repeat count no input can satisfy, up to counts whose byte size overflows 64 bits: read beyond
+                    pre = ["1", str(rng.choice([40, 58, 60, 61, 62])), "lshift"]
                 if rng.random() < 0.12:
-                    # bit fields of 1..31 bits (wider ones: KF-C19-nbit-wide), singly or in long runs
-                    t = "%dbit" % rng.choice([1, 2, 3, 5, 7, 8, 9, 11, 12, 13, 16, 17, 23, 24, 30, 31])
+                    # bit fields of 1..57 and of 64 bits, singly or in long runs (58..63 bits: a run does not fit
+                    # the machine's 64-bit window, section 6.3 of DESIGN.md)
+                    t = "%dbit" % rng.choice([1, 2, 3, 5, 7, 8, 9, 11, 12, 13, 16, 17, 23, 24, 30, 31, 32, 33, 40, 48, 57, 64])
                     big = "!" if rng.random() < 0.3 else ""
                     rep = rng.random() < 0.7
                     pre = [str(rng.choice([0, 1, 2, 3, 5, 8, 13, 16, 20]))] if rep else []
